@@ -3,6 +3,11 @@ import json, os
 V = os.path.dirname(os.path.dirname(os.path.abspath(__file__)))
 
 CHECKS = {
+ "C08": dict(
+   technique="TLA+ spec constructing factorization instances FROM exact rational factor series (Factor.tla: Cayley transform of skew series for orthogonal factors) with the defining identities model-checked; instances replayed through algopy.qr/qr_full/cholesky/lu/eigh/svd/eig",
+   text="TLC builds, for every base orthogonal/permutation matrix, eigenvalue splitting pattern and coefficient pattern of the catalogue, A(t) = Q(t)R(t), L L^T, P L U, Q Lambda Q^T, U diag(s) V^T, X Lambda X^-1 as exact rational series and checks the identities of the factors. algopy's results must (a) agree with NumPy/SciPy at order 0, (b) reproduce the constructed unique factor series up to the constant sign convention, (c) satisfy the defining equations at every order, (d) have the triangular/diagonal/permutation structure - for square, tall, wide and full QR, Cholesky, LU with all six 3x3 row permutations, eigh with distinct eigenvalues and with repeated ones splitting at order 1, 2, never, and in two stages, SVD 3x2, eig at D=2; single instances and pairs packed as two directions with different base matrices; sparse patterns (a whole order of factor coefficients zero) and matrices scaled by 1e-9.",
+   note="matrix sizes <= 3, D <= 4 (5 thorough); eigenvectors inside a cluster of coinciding eigenvalue series and completion columns are checked only through the defining equations; tolerance 1e-8 relative",
+   design="3.6, 4 (C08)"),
  "C07": dict(
    technique="TLA+ spec of linear algebra over the ring Q[t]/(t^D) (LinAlg.tla: Leibniz determinant, adjugate inverse, dot for every rank pair from NumPy's rule); TLC checks the defining identities on every instance and prints exact rational results; replay against algopy",
    text="TLC checks, as identities modulo t^D on every instance, A inv(A) = inv(A) A = I, det(A) inv(A) = adj(A), A solve(A,B) = B, multiplicativity of det and the triangular product rule, (log det)' = det'/det, the transpose rule of dot, outer = column x row, exp(A) exp(-A) = I for nilpotent A. Each instance (13 base matrices incl. ones needing row interchanges and a cyclic row permutation, 10 rank combinations of dot up to 3-D x 3-D, operand kinds UTPM/UTPM, UTPM/ndarray, ndarray/UTPM, single and paired as two directions with different base matrices, D <= 5) is run through algopy.inv/solve/det/logdet/trace/dot/outer/expm and compared with the exact rational series; operands must be unchanged.",
